@@ -2,23 +2,32 @@
 import os, re, random, zlib
 import lib, troute
 
-PROPS = "ImathVerif.Props.C09"
-IMPORTS = ["ImathVerif.Props.C09"]
-OPENS = ["ImathVerif", "ImathVerif.C09", "Matrix"]
-
-# theorems whose presence is required (the property's clauses); everything else in Props/C09.lean is checked as well
-REQUIRED = [
-    "M44_setTranslation_point", "M44_translation", "M44_setScaleV_point", "M44_setScaleS", "M44_setShearV_point", "M44_setShear6_point",
-    "M44_setEulerAngles", "M44_setEulerAngles_rotation", "M44_setAxisAngle_rotation", "M44_setAxisAngle_point",
-    "M44_setEulerAngles_eq_axisAngles", "M44_rotate", "M44_translate", "M44_scale", "M44_shearV", "M44_shear6",
-    "M33_setTranslation_point", "M33_translation", "M33_setScaleV_point", "M33_setShearS_point", "M33_setShearV_point",
-    "M33_setRotation_point", "M33_setRotation_rotation", "M33_translate", "M33_scale", "M33_shearS", "M33_shearV", "M33_rotate",
-    "M22_setRotation_point", "M22_setRotation_rotation", "M22_rotate", "M22_setScaleV_point", "M22_scale",
-    "alignZAxisWithTargetDir_spec", "alignZAxisWithTargetDir_frame", "alignZAxisWithTargetDir_axes", "alignZAxisWithTargetDir_zero_target",
-    "alignZAxisWithTargetDir_zero_up", "alignZAxisWithTargetDir_parallel", "rotationMatrixWithUpDir_frame", "computeLocalFrame_frame",
-    "firstFrame_frame", "firstFrame_collinear", "lastFrame_frame", "nextFrame_eq", "nextFrame_frame", "nextFrame_tangent", "addOffset_eq",
-    "rotationMatrix_acute", "rotationMatrix_opposite", "rotationMatrix_nearOpposite", "rotationMatrix_obtuse_partial", "rotationMatrix_frame",
+# four independent property modules (a change to one extracted function re-elaborates only the module that speaks about it,
+# and a broken tree theorem is attributed to that theorem alone: later theorems still elaborate against its statement)
+MODULES = [
+    ("ImathVerif.Props.C09", [
+        "M44_setTranslation_point", "M44_translation", "M44_setScaleV_point", "M44_setScaleS", "M44_setShearV_point", "M44_setShear6_point",
+        "M44_setEulerAngles", "M44_setEulerAngles_rotation", "M44_setAxisAngle_eq", "M44_setAxisAngle_rotation", "M44_setAxisAngle_point",
+        "M44_setEulerAngles_eq_axisAngles", "M44_rotate", "M44_translate", "M44_scale", "M44_shearV", "M44_shear6",
+        "M33_setTranslation_point", "M33_translation", "M33_setScaleV_point", "M33_setShearS_point", "M33_setShearV_point",
+        "M33_setRotation_point", "M33_setRotation_rotation", "M33_translate", "M33_scale", "M33_shearS", "M33_shearV", "M33_rotate",
+        "M22_setRotation_point", "M22_setRotation_rotation", "M22_rotate", "M22_setScaleV_point", "M22_scale",
+        "computeLocalFrame_spec", "computeLocalFrame_frame", "firstFrame_spec", "firstFrame_frame", "firstFrame_collinear",
+        "lastFrame_eq", "lastFrame_frame", "addOffset_eq"]),
+    ("ImathVerif.Props.C09Align", [
+        "alignZAxisWithTargetDir_spec", "alignZAxisWithTargetDir_frame", "alignZAxisWithTargetDir_axes",
+        "alignZAxisWithTargetDir_zero_target", "alignZAxisWithTargetDir_zero_up", "alignZAxisWithTargetDir_parallel",
+        "rotationMatrixWithUpDir_eq_alignZ", "rotationMatrixWithUpDir_frame"]),
+    ("ImathVerif.Props.C09Next", ["nextFrame_eq", "nextFrame_frame", "nextFrame_tangent", "nextFrame_tangents_out"]),
+    ("ImathVerif.Props.C09Quat", [
+        "quatSetRotation_spec", "rotationMatrix_spec", "rotationMatrix_acute", "rotationMatrix_opposite", "rotationMatrix_nearOpposite",
+        "rotationMatrix_obtuse_partial", "rotationMatrix_frame"]),
 ]
+# the Rat evaluation of a broken statement imports only specs and regenerated definitions (a Props module may not build)
+IMPORTS = ["ImathVerif.Spec.MatSpec", "ImathVerif.Spec.TransformSpec", "ImathVerif.Gen.C05", "ImathVerif.Gen.C09Mat", "ImathVerif.Gen.C09Frame",
+           "ImathVerif.Gen.C09Align", "ImathVerif.Gen.C09Next", "ImathVerif.Gen.C09Quat", "ImathVerif.Gen.C09Up", "ImathVerif.Gen.C09Rot",
+           "Mathlib.LinearAlgebra.Matrix.Notation"]
+OPENS = ["ImathVerif", "ImathVerif.C09", "Matrix"]
 
 # residue checks that speak about a frame builder / builder family: used when a theorem about that function breaks
 RESIDUE_OF = [("alignZAxisWithTargetDir", "alignZAxisWithTargetDir"), ("rotationMatrixWithUpDir", "rotationMatrixWithUpDir"),
@@ -79,10 +88,15 @@ def parse(path, name):
     return params, " ".join(stmt.split())
 
 
-def rat_search(chk, theorem, binary, index, idx_deps, trials=80):
-    """Evaluate the statement at Rat with sin/cos := a rational parametrisation of the circle, sqrt := exact rational root,
-    tmin := 0, axes with rational length; hypotheses are dropped (they hold for these instances)."""
-    path = os.path.join(lib.LEAN, *PROPS.split(".")) + ".lean"
+NONDECIDABLE = ("LenSpec", "∀", "AcosSpec")
+
+
+def rat_search(chk, module, theorem, binaries, index, trials=80):
+    """Evaluate the statement at Rat with sin/cos := a rational parametrisation of the circle, acos := id, sqrt := exact rational root,
+    tmin := 0, teps := 1/64.  Decidable hypotheses are kept (hyp → statement); LenSpec / ∀-hypotheses are dropped, which is sound only
+    when every length taken is rational: theorems with a LenSpec hypothesis are searched only if they are about setAxisAngle (axis drawn
+    from vectors of rational length)."""
+    path = os.path.join(lib.LEAN, *module.split(".")) + ".lean"
     pt = parse(path, theorem)
     if not pt:
         return None
@@ -94,12 +108,18 @@ def rat_search(chk, theorem, binary, index, idx_deps, trials=80):
     def num():
         k = rng.choice([0, 1, -1, 2, -2, 3, 5, -7, 1, 2, 3])
         return "(%d : Rat)" % k if rng.random() < 0.8 else "((%d : Rat) / 2)" % k
+
     def is_var(ty):
         t = ty.replace("α", "").strip()
         return ty == "α → α" or ty == "α" or t in troute.ARITY
-    if any((not is_var(ty)) and not n.startswith("h") for n, ty in params):
-        return None                       # a binder that is neither data nor a hypothesis: not evaluable
-    params = [(n, ty) for (n, ty) in params if is_var(ty)]   # hypotheses dropped
+    hyps = [(n, ty) for (n, ty) in params if not is_var(ty)]
+    if any(not n.startswith("h") for n, _ in hyps):
+        return None
+    dropped = [ty for _, ty in hyps if ty.startswith(NONDECIDABLE)]
+    if any(ty.startswith("LenSpec") for ty in dropped) and not theorem.startswith("M44_setAxisAngle"):
+        return None
+    kept = [ty for _, ty in hyps if not ty.startswith(NONDECIDABLE)]
+    params = [(n, ty) for (n, ty) in params if is_var(ty)]
     names, tys, fixed = [], [], {}
     for n, ty in params:
         t = ty.replace("α", "").strip()
@@ -111,30 +131,44 @@ def rat_search(chk, theorem, binary, index, idx_deps, trials=80):
         if n == "tmin":
             fixed[n] = "(0 : Rat)"
             continue
-        if t != "" and t not in troute.ARITY:
-            return None
+        if n == "teps":
+            fixed[n] = "((1 : Rat) / 64)"
+            continue
         names.append(n); tys.append(t)
     uses_len = "sqrt" in fixed
+    v3 = "⟨(%d : Rat), (%d : Rat), (%d : Rat)⟩"
     cases = []
     for _ in range(trials):
-        vs = []
+        vs, last = [], None
         for n, t in zip(names, tys):
             if t == "":
                 vs.append(num())
-            elif t == "V3" and uses_len and n in ("axis",):
-                p = rng.choice(PYTH)
-                vs.append("⟨(%d : Rat), (%d : Rat), (%d : Rat)⟩" % p)
+            elif t == "V3":
+                r = rng.random()
+                if uses_len and n == "axis":
+                    vec = rng.choice(PYTH)
+                elif r < 0.12:
+                    vec = (0, 0, 0)
+                elif r < 0.27:
+                    vec = [(2, 0, 0), (0, -3, 0), (0, 0, 1), (-1, 0, 0), (0, 0, -2)][rng.randrange(5)]
+                elif r < 0.45 and last is not None:
+                    k = rng.choice([1, 2, -1, -3])
+                    vec = tuple(k * c for c in last)        # parallel / opposite to the previous vector
+                else:
+                    vec = tuple(rng.choice([0, 1, -1, 2, -2, 3, 5, -7]) for _ in range(3))
+                last = vec
+                vs.append(v3 % tuple(vec))
             else:
                 k = troute.ARITY[t].count("%s")
                 vs.append(troute.ARITY[t] % tuple(num() for _ in range(k)))
         cases.append(vs)
-    allp = params
-    decl = " ".join("(%s : %s)" % (n, ("Rat → Rat" if ty == "α → α" else "Rat" if ty == "α" else ty.replace("α", "Rat"))) for n, ty in allp)
+    decl = " ".join("(%s : %s)" % (n, ("Rat → Rat" if ty == "α → α" else "Rat" if ty == "α" else ty.replace("α", "Rat"))) for n, ty in params)
+    body = " → ".join(["(%s)" % h for h in kept] + ["(%s)" % stmt])
     lines = ["import %s" % i for i in IMPORTS] + ["open %s" % " ".join(OPENS), PRELUDE,
-             "def stmtHolds %s : Bool := decide (%s)" % (decl, stmt)]
+             "def stmtHolds %s : Bool := decide (%s)" % (decl, body)]
     for i, vs in enumerate(cases):
         d = dict(zip(names, vs))
-        args = " ".join("(%s)" % (fixed[n] if n in fixed else d[n]) for n, _ in allp)
+        args = " ".join("(%s)" % (fixed[n] if n in fixed else d[n]) for n, _ in params)
         lines.append('#eval IO.println s!"CASE %d {stmtHolds %s}"' % (i, args))
     rc, out = lib.lean_run_file("\n".join(lines) + "\n", timeout=900, name="search_c09")
     res = dict((int(m.group(1)), m.group(2) == "true") for m in re.finditer(r"CASE (\d+) (true|false)", out))
@@ -148,7 +182,8 @@ def rat_search(chk, theorem, binary, index, idx_deps, trials=80):
     real = None
     fn = re.search(r"Gen\.([A-Za-z0-9_.]+)", stmt)
     entry = next((d for d in index if fn and d["name"] == fn.group(1)), None)
-    if binary and entry:
+    if entry:
+        binary, idx_deps = binaries[entry["bin"]]
         nums, ok = [], True
         for p in [x for x in (entry.get("params") or "").split(",") if x]:
             pn = p.partition(":")[0]
@@ -156,23 +191,23 @@ def rat_search(chk, theorem, binary, index, idx_deps, trials=80):
             if src is None:
                 ok = False
                 break
-            nums += troute._flat_numbers(vs[src])
-        if ok:
+            nums += troute._flat_numbers(vs[src]) if "/" in vs[src] or ":" in vs[src] else []
+        if ok and binary:
             cmd = [binary, "real", fn.group(1)] + ["%r" % x for x in nums]
             for d in idx_deps:
                 cmd += ["--idx", d]
             rc2, out2 = lib.sh(cmd, timeout=120)
             real = out2.strip().split("\n")[-1] if out2.strip() else None
-    return {"key": "theorem:" + theorem, "theorem_statement": stmt, "failing_input": vs,
-            "evaluated_at": "Rat (sin x := 2x/(1+x²), cos x := (1−x²)/(1+x²), sqrt := exact rational root, tmin := 0), "
-                            "with the Gen definitions regenerated from the current tree",
+    return {"key": "theorem:" + theorem, "theorem_statement": stmt, "hypotheses_kept": kept, "failing_input": vs,
+            "evaluated_at": "Rat (sin x := 2x/(1+x²), cos x := (1−x²)/(1+x²), acos := id, sqrt := exact rational root, tmin := 0, "
+                            "teps := 1/64), with the Gen definitions regenerated from the current tree",
             "real_code_at_double(real sin/cos)": real, "falsified_cases": len(bad)}
 
 
 def gen_defs():
     """{function name: definition text} of the C09 Gen modules currently installed"""
     out = {}
-    for mod in ("C09Mat", "C09Frame", "C09Next", "C09Quat", "C09Up"):
+    for mod in ("C09Mat", "C09Frame", "C09Align", "C09Next", "C09Quat", "C09Up", "C09Rot"):
         p = os.path.join(troute.GEN, mod + ".lean")
         if not os.path.exists(p):
             continue
@@ -258,65 +293,64 @@ def run(chk):
     c09_idx = os.path.join(troute.GEN, "index_c09.txt")
     index, state = [], {}
     before = gen_defs()
+    binaries = {"c09": (bins.get("sym_c09"), [leaf_idx]), "c09up": (bins.get("sym_c09up"), [leaf_idx, c09_idx])}
     if bins.get("sym_leaf") and bins.get("sym_c09") and bins.get("sym_c09up"):
         troute.regenerate(chk, bins["sym_leaf"], "leaf")
         index, _ = troute.regenerate(chk, bins["sym_c09"], "c09", idx_deps=[leaf_idx])
         index2, _ = troute.regenerate(chk, bins["sym_c09up"], "c09up", idx_deps=[leaf_idx, c09_idx])
+        for d in index:
+            d["bin"] = "c09"
+        for d in index2:
+            d["bin"] = "c09up"
         n = 400 if chk.thorough else 64
         troute.tv(chk, bins["sym_c09"], "c09", n, idx_deps=[leaf_idx])
         troute.tv(chk, bins["sym_c09up"], "c09up", n, idx_deps=[leaf_idx, c09_idx])
         troute.lean_tv(chk, bins["sym_c09"], "c09", index, n=8 if chk.thorough else 3, idx_deps=[leaf_idx])
-        for d in index[:3] + index[-4:] + index2:
+        for d in index[:4] + index[-3:] + index2:
             chk.sample({"entry": d["name"], "paths": d.get("paths")})
-
+        index = index + index2
     after = gen_defs()
     changed = sorted(f for f in after if before.get(f) != after[f]) if before else []
     if changed:
         chk.extra["gen_functions_changed_since_last_run"] = changed
-    budget = {"left": 16}
+    budget = {"left": 24}
 
-    def relevant(name):
-        """with a known set of changed functions, search only the theorems that speak about them"""
-        if not changed:
-            return True
-        src = open(os.path.join(lib.LEAN, *PROPS.split(".")) + ".lean").read()
-        pt = parse(os.path.join(lib.LEAN, *PROPS.split(".")) + ".lean", name)
-        stmt = pt[1] if pt else ""
-        for f in changed:
-            if ("Gen." + f) in stmt or any(name.startswith(pre) for pre in DEPENDS.get(f, [])):
-                return True
-        return False
-
-    def search(name):
-        if not relevant(name) or budget["left"] <= 0:
+    def make_search(module):
+        def search(name):
+            if budget["left"] <= 0:
+                return None
+            budget["left"] -= 1
+            # 1. statements without analytic hypotheses: evaluate at Rat and replay on the real code
+            try:
+                rep = rat_search(chk, module, name, binaries, index)
+            except Exception as ex:
+                lib.log("rat_search(%s) raised %r" % (name, ex))
+                rep = None
+            if rep:
+                return rep
+            # 2. otherwise (hypotheses on length, existential statements): the residue harness compares the REAL code with the
+            #    documented behaviour on structured inputs — report its first failing input for the function the theorem is about
+            fn = next((r for (t, r) in RESIDUE_OF if name.startswith(t) or (t in name)), None)
+            if fn and bins.get("c09_residue"):
+                if "out" not in state:
+                    state["out"] = run_residue(chk, bins["c09_residue"], 4000)[1]
+                for l in state["out"].split("\n"):
+                    if l.startswith("RESIDUE-FAIL " + fn):
+                        mm = re.match(r"RESIDUE-FAIL ([^:]+):([^:]+):(\w+) (err/eps=\S+ > \S+) in=(.*)", l)
+                        if mm:
+                            return {"key": "theorem:" + name, "found_by": "harness/corr/c09_residue (real code vs documented behaviour)",
+                                    "check": mm.group(1), "input_class": mm.group(2), "element_type": mm.group(3), "error": mm.group(4),
+                                    "input": mm.group(5)}
             return None
-        budget["left"] -= 1
-        # 1. algebraic statements: evaluate at Rat and replay on the real code
-        try:
-            rep = rat_search(chk, name, bins.get("sym_c09"), index, [leaf_idx])
-        except Exception as ex:
-            lib.log("rat_search(%s) raised %r" % (name, ex))
-            rep = None
-        if rep:
-            return rep
-        # 2. frame builders (hypotheses on length, existential statements): the residue harness compares the REAL code with the
-        #    documented behaviour on structured inputs — report its first failing input for the function the theorem is about
-        fn = next((r for (t, r) in RESIDUE_OF if name.startswith(t) or (t in name)), None)
-        if fn and bins.get("c09_residue"):
-            if "out" not in state:
-                state["out"] = run_residue(chk, bins["c09_residue"], 4000)[1]
-            for l in state["out"].split("\n"):
-                if l.startswith("RESIDUE-FAIL " + fn):
-                    mm = re.match(r"RESIDUE-FAIL ([^:]+):([^:]+):(\w+) (err/eps=\S+ > \S+) in=(.*)", l)
-                    if mm:
-                        return {"key": "theorem:" + name, "found_by": "harness/corr/c09_residue (real code vs documented behaviour)",
-                                "check": mm.group(1), "input_class": mm.group(2), "element_type": mm.group(3), "error": mm.group(4),
-                                "input": mm.group(5)}
-        return None
+        return search
 
     if index:
-        chk.check_theorems(PROPS, required=REQUIRED, search=search)
+        # one lake invocation first: the four modules are independent and build in parallel (a failing one does not stop the others)
+        lib.lake_build([m for m, _ in MODULES])
+        for module, required in MODULES:
+            chk.check_theorems(module, required=required, search=make_search(module))
     if bins.get("c09_residue"):
         residue(chk, bins["c09_residue"], 30000 if chk.thorough else 4000, state)
     if chk.thorough:
-        chk.leanchecker(PROPS)
+        for module, _ in MODULES:
+            chk.leanchecker(module)
